@@ -54,23 +54,41 @@ def get_samples(self, num_samples):
 '''
 
 
+# the same definition with the per-request time step written out (for a tree in which `_update_t` was folded into its caller)
+REF_GET_SAMPLES_FOLDED = REF_GET_SAMPLES.replace(
+    '    self._update_t(num_samples)\n',
+    '    self.ts = self.t_start + xp.linspace(0., num_samples * self.dt, num_samples, endpoint=False)\n'
+    '    self.t_start += num_samples * self.dt\n'
+    '    self.v = xp.zeros(num_samples)\n')
+
+
 def run(ctx):
     T.INTEGER.add('num_samples')
     # ---- D1 time array and clock advance
     ctx.clause = 'D1'
-    ut = ctx.func(DS + '_update_t')
-    r, I = ctx.run(ut, opaque_attrs=('dt',))
+    # the per-request time step lives in _update_t, or -- when that helper was folded into its only caller -- at the head of
+    # get_samples: the first store of each attribute in the request is what is checked
+    has_ut = (DS + '_update_t') in {f.short for f in ctx.prog.functions.values()}
+    ut = ctx.func(DS + ('_update_t' if has_ut else 'get_samples'))
+    r, I = ctx.run(ut, opaque_attrs=('dt',), **({} if has_ut else {'heap': {'noise_sources': '[]', 'signal_sources': '[]'}}))
     J = ctx.interp(opaque_attrs=('dt',))
-    ctx.formula('FORMULA', 'sample k of a request is at t_start + k*dt', ut, selfattr(r, 'ts') or T.NONE,
+
+    def first_store(name):
+        es = [e for e in I.events if e.kind == 'store' and e.data.get('target') == 'attr' and e.data.get('name') == name
+              and e.data['base'].key == sym('self').key]
+        return es[0].data['value'] if es else None
+    ts_v, t0_v, v_v = first_store('ts'), first_store('t_start'), first_store('v')
+    ctx.formula('FORMULA', 'sample k of a request is at t_start + k*dt', ut, ts_v if ts_v is not None else T.NONE,
                 ctx.spec(ut, 'SEQ(self.t_start, self.dt, num_samples)', I=J), node=ut.node, construct='self.ts')
-    ctx.formula('FORMULA', 'the clock advances by num_samples*dt', ut, selfattr(r, 't_start') or T.NONE,
+    ctx.formula('FORMULA', 'the clock advances by num_samples*dt', ut, t0_v if t0_v is not None else T.NONE,
                 ctx.spec(ut, 'self.t_start + num_samples * self.dt', I=J), node=ut.node, construct='self.t_start')
-    nxt = selfattr(r, 't_start')
-    seq = T.as_seq(selfattr(r, 'ts')) if selfattr(r, 'ts') is not None else None
+    nxt = t0_v
+    seq = T.as_seq(ts_v) if ts_v is not None else None
     ok = seq is not None and nxt is not None and (seq[0] + seq[2] * seq[1] - nxt).is_zero()
     ctx.ob('AGREE', 'continuity: the next request starts exactly one dt after the last sample of this one', ut, ok,
-           {'ts': pretty(selfattr(r, 'ts')), 'next_t_start': pretty(nxt)}, node=ut.node, construct='ts[n] == new t_start')
-    ctx.formula('FORMULA', 'voltage buffer is reset to zeros(num_samples)', ut, selfattr(r, 'v') or T.NONE,
+           {'ts': pretty(ts_v) if ts_v is not None else None, 'next_t_start': pretty(nxt) if nxt is not None else None},
+           node=ut.node, construct='ts[n] == new t_start')
+    ctx.formula('FORMULA', 'voltage buffer is reset to zeros(num_samples)', ut, v_v if v_v is not None else T.NONE,
                 ctx.spec(ut, 'xp.zeros(num_samples)'), node=ut.node, construct='self.v')
     derived, base = ctx.exp.build(ctx.prog.cls('voltage.data_stream.DataStream'))
     init = ctx.func(DS + '__init__')
@@ -131,9 +149,9 @@ def __init__(self, sample_rate=3*u.GHz, fch1=0*u.GHz, ascending=True, num_pols=2
     # ---- D3 accumulation of sources
     ctx.clause = 'D3'
     gs = ctx.func(DS + 'get_samples')
-    agree_ref(ctx, gs, REF_GET_SAMPLES, 'get_samples: new time array, every noise and signal source summed in (complex promotion '
+    agree_ref(ctx, gs, REF_GET_SAMPLES if has_ut else REF_GET_SAMPLES_FOLDED, 'get_samples: new time array, every noise and signal source summed in (complex promotion '
               'before a complex source), start flag cleared', what=('return', 'attrstores', 'calls'),
-              no_inline=(DS + '_update_t',), expand=False)
+              no_inline=((DS + '_update_t',) if has_ut else ()), expand=False)
     fi, ev, val = chirp_term(ctx)
     spec = ctx.spec(fi, 'level * xp.cos(ITE(self.ascending, 1, -1) * 2 * xp.pi * ((f_start - self.fch1) * ts + '
                         'drift_rate * ts**2 / 2) + phase)', env={'ts': sym('ts')})
